@@ -4,6 +4,7 @@ import glob, json, os, re
 V = os.path.dirname(os.path.dirname(os.path.abspath(__file__)))
 rows = []
 stats = {"caught": 0, "missed": 0, "harness error": 0}
+notnow = []
 for p in sorted(glob.glob(os.path.join(V, "seeded", "*", "meta.json"))):
     sid = os.path.basename(os.path.dirname(p))
     m = json.load(open(p))
@@ -11,12 +12,18 @@ for p in sorted(glob.glob(os.path.join(V, "seeded", "*", "meta.json"))):
     first = "caught"
     if re.search(r"\bMISSED\b", det):
         first = "missed"
-    if det.startswith("first run: HARNESS-ERROR") or det.startswith("first run: the check did not terminate"):
+    if det.startswith("first run: HARNESS-ERROR") or det.startswith("first run: the check did not terminate") or det.startswith("HARNESS-ERROR at first run"):
         first = "harness error"
+    if det.startswith("NOT caught"):
+        first = "missed"
     stats[first] += 1
     now = "caught"
-    if "in progress" in det or "see detection/" in det and "VIOLATION" not in det:
+    if "in progress" in det or "see detection/" in det and "VIOLATION" not in det or "see DESIGN seed table for the final status" in det:
         now = "being strengthened"
+    if det.startswith("NOT caught"):
+        now = "NOT caught (outside the bound)"
+    if now != "caught":
+        notnow.append("%s: %s" % (sid, now))
     summ = m["summary"].replace("|", "\\|").replace("\n", " ")
     if len(summ) > 170:
         summ = summ[:167].rsplit(" ", 1)[0] + " ..."
@@ -32,3 +39,4 @@ a, b = s.index("<!-- seeds-table-begin -->"), s.index("<!-- seeds-table-end -->"
 s = s[:a] + "<!-- seeds-table-begin -->\n" + "\n".join(table) + "\n" + s[b:]
 open(p, "w").write(s)
 print("\n".join(table[-1:]))
+print("not (yet) caught:", notnow)
